@@ -145,6 +145,11 @@ type Sched struct {
 	lastPicked  int
 	rrNext      int
 	expectChild bool
+	// baseG: goroutines of the process that are not tasks of this run
+	// (NumGoroutine minus the known live tasks, re-measured at every dump).
+	// A difference means a task started or lost a goroutine the scheduler
+	// has not been told about: look before deciding.
+	baseG int
 
 	// Budget: steps driven by the drawn policy; afterwards a fair
 	// round-robin phase of at most FairBound steps must finish the run.
@@ -435,7 +440,7 @@ func (s *Sched) park(t *task, site string, aux int64) {
 	s.seq++
 	s.events = append(s.events, Event{Step: s.step, Task: t.id, Site: site, Aux: aux, seq: s.seq})
 	s.lastEvOf[t.id] = len(s.events) - 1
-	if strings.HasPrefix(site, "spawn") {
+	if strings.HasPrefix(site, "spawn") || strings.HasSuffix(site, ":spawn") {
 		s.expectChild = true
 	}
 }
@@ -534,10 +539,17 @@ func (s *Sched) settle(rootHello map[int64]*task, needRoots int) bool {
 			}
 		}
 		needDump := s.expectChild || len(s.anon) > 0
+		liveKnown := 0
 		for _, t := range s.tasks {
 			if t.state == stRunning || t.state == stBlocked {
 				needDump = true
 			}
+			if t.state != stExited {
+				liveKnown++
+			}
+		}
+		if runtime.NumGoroutine() != s.baseG+liveKnown {
+			needDump = true
 		}
 		if rootsMissing == 0 && !needDump {
 			return true
@@ -602,6 +614,13 @@ func (s *Sched) settle(rootHello map[int64]*task, needRoots int) bool {
 			}
 			if settled {
 				s.expectChild = false
+				liveKnown = 0
+				for _, t := range s.tasks {
+					if t.state != stExited {
+						liveKnown++
+					}
+				}
+				s.baseG = runtime.NumGoroutine() - liveKnown - len(s.anon)
 				return true
 			}
 		}
@@ -731,6 +750,7 @@ func (s *Sched) Run() Outcome {
 
 	rootHello := map[int64]*task{}
 	active = s
+	s.baseG = runtime.NumGoroutine()
 	for i, rs := range s.roots {
 		t := &task{id: len(s.tasks), name: rs.name, root: true, parent: -1, rfd: -1, wfd: -1}
 		if s.policy == PolPCT {
